@@ -385,7 +385,12 @@ func (p *Parser) printStatement() (StatementPrint, error) {
 	startToken := *p.previous
 
 	args := make([]Expr, 0)
-	for !p.atStatementEnd() {
+	if p.atStatementEnd() {
+		// bare print. atStatementEnd has consumed a ';' if there was one
+		p.didEndStatement = true
+		return StatementPrint{startToken, args}, nil
+	}
+	for {
 		expr, err := p.expression()
 		if err != nil {
 			return StatementPrint{}, err
